@@ -8,7 +8,8 @@
    `ctx0` is the state of freshly created instances. *)
 From Coq Require Import NArith List Bool.
 From XV Require Import Base.Str Base.Eqb Model.Context
-  Proofs.ContextEq Proofs.ContextInv Proofs.ContextHist Proofs.ContextLemmas Proofs.ContextWitness.
+  Proofs.ContextEq Proofs.ContextInv Proofs.ContextHist Proofs.ContextLemmas Proofs.ContextWitness
+  Proofs.ContextStatic.
 Import ListNotations.
 Open Scope N_scope.
 
@@ -75,6 +76,18 @@ Theorem C14_shared_is_ideal :
   ns_closed (t ++ ts) = true -> quiet (t ++ ts) = true -> r = ideal_run w s.
 Proof. exact shared_is_ideal. Qed.
 Print Assumptions C14_shared_is_ideal.
+
+(* A static sufficient condition: if every class that exists at the end declares its own
+   namespace and can be built (world_closed), classes appear together with modules, and
+   no client calls build_recursive, then EVERY history is inside the guard — whatever
+   the clients request, in whatever order, failing or not. *)
+Theorem C14_history_independent_declared :
+  forall w0 h s,
+  world_ok w0 = true -> modules_stable h = true -> Forall hop_norec h -> norec s ->
+  (let '(w, _, _) := run_hist w0 ctx0 h in world_closed w = true) ->
+  history_independent_at w0 h s.
+Proof. exact history_independent_declared. Qed.
+Print Assumptions C14_history_independent_declared.
 
 (* the cache invariant behind it: every cached entry is the canonical metadata of its
    class, whatever calls — failing ones included — have been made *)
